@@ -88,6 +88,25 @@ RULES = [
  ("C07", r"accessor-useSel:getArrayByUID", "getArrayByUID(useSel) keeps the samples"),
  ("C07", r"setItem\[useSel\]:values", "setItem with useSel writes the values at the wrong samples"),
  ("C07", r"outofrange:upd.*", "updZVariable / updLocVariable write outside the table"),
+ ("C03", r"route:range-converted-before-param:.*", "lose the requested range for shape-dependent structures"),
+ ("C05", r"simtub:poisson-intensity.*", "masked samples change turning-bands simulations of intrinsic"),
+ ("C05", r"evalCovMatrixSparse:request-for-variable-rank.*", "evalCovMatrixSparse writes out of bounds"),
+ ("C07", r"accessor-getAllCoordinatesMat", "getAllCoordinatesMat writes out of bounds"),
+ ("C10", r"optim:stale-cache-after-success:with-optim-switch", "optimisation is switched off keeps the target"),
+ ("C10", r"incr:AnamHermite:.*", "setPsiHns / setPsiHn leave the cached mean"),
+ ("C11", r"history:chol-.*:setMatrix-again:.*", "keep (part of) the previous factorisation when setMatrix"),
+ ("C11", r"history:chol-.*:copy:.*", "copying a Cholesky helper shares or loses"),
+ ("C13", r"history:simtub:POWER.*", "depend on the scale of a previous POWER simulation"),
+ ("C14", r"fft:spherical-aniso:.*", "simfft ignores the anisotropy"),
+ ("C14", r"fft:spherical-5x3:.*", "simfft addresses its spectrum with the wrong index order"),
+ ("C14", r"spectral:(gaussian|matern1):.*", "draws the frequencies of the Gaussian and Matern"),
+ ("C14", r"spectral:exponential-sill2:.*", "spectral simulation ignores the sill"),
+ ("C14", r"tb:power1.5-incr:.*", "apply the scale of a POWER structure the wrong way round"),
+ ("C19", r"crash:dbStatisticsOnGrid:baseline.*MEDIAN.*", "dbStatisticsOnGrid(MEDIAN) overflows"),
+ ("C19", r"rollback:(rawToGaussian|rawToGaussianByLocator|normalScore|gaussianToRawByLocator|rawToFactor|ConditionalExpectation|DisjunctiveKriging|UniformConditioning):(after-preprocess|after-run)", "anamorphosis transforms leave their output variables behind"),
+ ("C19", r"rollback:krigingFactors:.*", "failing krigingFactors leaves the Z locators"),
+ ("C19", r".*tessellation_poisson.*", "tessellation_poisson takes a column index for the UID"),
+ ("C19", r"success-output-names:dbg2gExpand", "dbg2gExpand ignores its naming convention"),
  ("C20", r".*", ""),
 ]
 log = subprocess.check_output(["git", "-C", "/repo", "log", "--format=%h %s"], text=True).splitlines()
